@@ -98,7 +98,7 @@ def jOptDescribe : Option GenOutput → Json
   | none => Json.str "AttributeError"
 
 /-- options given as `[[dest, kind, value|null], …]`; the option set to apply to `GeneratorOutput()` -/
-def applyAll (kw : List (Str × Option OptVal)) : Option GenOutput :=
+def applyAll (kw : List (Dest × Option OptVal)) : Option GenOutput :=
   (kw.filterMap (fun kv => kv.2.map (fun v => (kv.1, v)))).foldlM (fun o kv => setField o kv.1 kv.2) defaultOutput
 
 def run (op : String) (a : Json) : Option (Except String Json) :=
@@ -179,7 +179,10 @@ def run (op : String) (a : Json) : Option (Except String Json) :=
         match p with
         | .arr #[d, k, v] => do
             let kind ← asStr k
-            pure (← asStr d, ← optVal kind v)
+            let name ← asStr d
+            match Dest.parse name with
+            | some dest => pure (dest, ← optVal kind v)
+            | none => .error s!"unknown option destination {String.ofList name}"
         | _ => .error "expected [dest, kind, value]")
       -- API / config file: the constructors see the requested values
       let api := (applyAll opts).map construct
